@@ -209,6 +209,8 @@ def run_program(case, check, ctx=None):
             if node is None:
                 continue
             refs = [x[1] for x in dsl.walk(node) if x[0] == 'ref']
+            if kind == 'q' and any(dsl.quantifier_depth(asts[x]) >= 2 for x in refs):
+                continue          # a third quantifier level only makes re itself exponential (time, never a verdict)
             dsl.REFS[:] = members
             try:
                 res = dsl.build(node)
@@ -547,6 +549,11 @@ def chain_cases():
                 for u2 in unary:
                     ops = [u1] + ([st_] if st_ else []) + [u2, ['match', -1, 0], ['match', -1, 1]]
                     yield {'leaves': [['lit', 'x', True], leaf], 'ops': ops, 'texts': texts, 'deep': False}
+                    # the second operation on the *same operand* again (member 1 = the leaf), not on the first result
+                    u2s = [1 if k == 2 and u2[0] in ('grp', 'cap', 'cat', 'alt', 'enc') else (1 if k == 3 and u2[0] in ('q', 'anchor') else v) for k, v in enumerate(u2)]
+                    st2 = ([st_[0], 1] + st_[2:]) if st_ else None
+                    ops = [u1] + ([st2] if st2 else []) + [u2s, ['match', -1, 0], ['match', -1, 1], ['match', 1, 0]]
+                    yield {'leaves': [['lit', 'x', True], leaf], 'ops': ops, 'texts': texts, 'deep': False}
 
 
 def check_case(case, ctx):
@@ -636,9 +643,9 @@ def strategy():
 
 
 def shards(tier):
-    n = 10 if tier == 'quick' else 50
-    out = [{'examples': 350 if tier == 'quick' else 3000, 'replay_seeds': 2 if tier == 'quick' else 4} for _ in range(n)]
-    out += [{'mode': 'alike'}, {'mode': 'chains'}]
+    n = 8 if tier == 'quick' else 48
+    out = [{'examples': 400 if tier == 'quick' else 3000, 'replay_seeds': 2 if tier == 'quick' else 4} for _ in range(n)]
+    out += [{'mode': 'alike'}] + [{'mode': 'chains', 'part': k, 'parts': 3} for k in range(3)]
     out += [{'mode': 'meta', 'fresh_per': 'case' if tier == 'quick' else ('call' if i % 2 else 'case'),
              'examples': 700 if tier == 'quick' else 2500} for i in range(4 if tier == 'quick' else 12)]
     return out
@@ -648,11 +655,11 @@ def run_shard(spec, ctx):
     if spec.get('mode') == 'chains':
         from pbt.common import run_enumeration
         ctx.programs = None
-        run_enumeration(ctx, chain_cases(), check_case, 'two-step unary chains on one value x compile states (4 leaves x 16 x 4 x 16)')
+        run_enumeration(ctx, (c for k, c in enumerate(chain_cases()) if k % spec.get('parts', 1) == spec.get('part', 0)), check_case, 'two unary operations in a row - on the first result, or twice on the same operand - x compile states (4 leaves x 16 x 4 x 16 x 2)')
         return
     if spec.get('mode') == 'alike':
         from pbt.common import run_enumeration
-        run_enumeration(ctx, alike_cases(ctx.seed * 31 + ctx.shard_index), check_case, 'classes that print alike x partners x orders (6 shuffles)')
+        run_enumeration(ctx, alike_cases(ctx.seed * 31 + ctx.shard_index), check_case, 'classes that print alike x partners x orders (6 shuffles)', secs=120)
         return
     if spec.get('mode') == 'meta':
         ctx.meta_cases = {}
